@@ -1,4 +1,7 @@
 import RbV.Ref.Smem
+import RbV.Model.FMDExt
+import RbV.Model.FMDRev
+import RbV.Model.FMDSym
 /-!
 # C06 — FMD-index: SMEMs on both strands, `all_smems`, bi-interval extension
 
@@ -122,5 +125,173 @@ example : checkBi T0 sa0 [67, 67] ⟨5, 5, 2, 2⟩ = true := by decide
 example : checkBi T0 sa0 [67, 67] ⟨5, 6, 2, 3⟩ = false := by decide
 example : SmemsProp T0 sa0 [65, 84, 84] 2 1 [⟨0, 3, 4, 5, 2, 3⟩] := (checkSmems_iff ..).mp (by decide)
 end examples
+
+/-! ## [C] mirror model of `backward_ext` / `forward_ext` / `init_interval_with`
+
+`FMDModel.backwardExt less occ iv a` (`RbV/Model/FMDExt.lean`) follows the Rust loop over `$TGCNAtgcna` line by
+line.  Proved: its **forward** interval and its size are the LF step of C05 (so they are exactly the rows of `a·P`
+on every `LF.Sorted` array).  The reverse-strand lower bound, i.e.
+
+    IvOf t sa (revcomp P) iv.lowerRev (iv.lowerRev + iv.size) →
+    IvOf t sa (revcomp (a :: P)) (backwardExt … iv a).lowerRev ((backwardExt … iv a).lowerRev + (backwardExt … iv a).size)
+
+for `t = fmdText seqs`, needs (i) strand symmetry of occurrence counts in `fmdText` and (ii) "rows starting with
+`Q` are ordered by the symbol after `Q`"; both are proved below (`strand_symmetry`, `FMDModel.next_mono`), and the
+full statements are `backward_ext_correct` / `forward_ext_correct` at the end of this section (the `…_partial`
+theorems are the stages on the way and stay valid).  `init_interval_with_correct` and `chain_correct` cover the start and the composition.  Still sampled only: extension of the
+empty string's interval (`init_interval()`), extension of an empty bi-interval, and Li's sweep (`smems`) itself.
+The driver runs the model next to the implementation on every extension chain (tag `model=impl` / `drift`). -/
+
+/-- the order string of the loop is the byte order of the complements: `$ < A < C < G < N < T < a < c < g < n < t`
+read through `dnaCompl` -/
+theorem order_is_complement_order :
+    FMDModel.order.map dnaCompl = [36, 65, 67, 71, 78, 84, 97, 99, 103, 110, 116] ∧
+    (FMDModel.order.map dnaCompl).Pairwise (· < ·) := by decide
+
+/-- forward half of `backward_ext` on a sorted array: if `[lower, lower+size)` are exactly the rows whose suffix
+starts with `P` (non-empty interval), then after `backward_ext(·, a)` they are exactly the rows whose suffix starts
+with `a·P`; in particular the new size is the number of such rows -/
+theorem backward_ext_forward_partial (t sa : List Nat) (a : Nat) (P : List Nat) (iv : FMDModel.Bi)
+    (ha : a ∈ FMDModel.order) (hs : LF.Sorted t sa a)
+    (hiv : BSModel.IvOf t sa P iv.lower (iv.lower + iv.size)) (hne : 0 < iv.size) :
+    BSModel.IvOf t sa (a :: P)
+      (FMDModel.backwardExt (LF.lessRef (LF.bwtOf t sa)) (LF.occRef (LF.bwtOf t sa)) iv a).lower
+      ((FMDModel.backwardExt (LF.lessRef (LF.bwtOf t sa)) (LF.occRef (LF.bwtOf t sa)) iv a).lower +
+        (FMDModel.backwardExt (LF.lessRef (LF.bwtOf t sa)) (LF.occRef (LF.bwtOf t sa)) iv a).size) :=
+  FMDModel.backwardExt_forward t sa _ _ a P iv ha (LF.lfStep_of_sorted hs) hiv hne
+
+/-- reverse-strand half of `backward_ext`, **reduced to strand symmetry** (partial): on an array passing
+`LF.sortedAllB`, if the reverse interval of `iv` holds exactly the rows of the sentinel-free `Q` (= `revcomp P`),
+every such row is followed by a symbol of `$ACGTNacgtn`, and for every symbol `b` of the loop's order string the
+size the loop computes for `b` (rows of `P`'s interval with BWT symbol `b`) equals the number of rows of
+`Q·complement(b)` — strand symmetry of the indexed text, a property of the construction `s $ revcomp(s) $`, not of
+the algorithm — then the new `[lower_rev, lower_rev+size)` are exactly the rows of `Q·complement(a) = revcomp(a·P)`.
+Ingredients proved on the way (`RbV/Model/FMDRev.lean`): rows of `Q` are ordered by the symbol after `Q`
+(`next_mono`), the block lemma for monotone keys (`mono_block`), the loop returns `lower_rev + Σ_{b before a} size_b`
+(`extLoop_fst`), and `v < complement a ⇔ v = complement b for some b before a` on the order string (`lt_iff_before`).
+Missing for the full statement: deriving the three hypotheses `hin`, `halpha`, `hsym` from `t = fmdText seqs`. -/
+theorem backward_ext_reverse_partial (t sa : List Nat) (less : Nat → Nat) (occ : Nat → Nat → Nat) (a : Nat)
+    (Q : List Nat) (iv : FMDModel.Bi) (ha : a ∈ FMDModel.order)
+    (hchk : LF.sortedAllB t sa = true)
+    (hQ : ∀ q ∈ Q, t.getD (t.length - 1) 0 ≠ q)
+    (hiv : BSModel.IvOf t sa Q iv.lowerRev (iv.lowerRev + iv.size))
+    (hin : ∀ r, iv.lowerRev ≤ r → r < iv.lowerRev + iv.size → sa.getD r 0 + Q.length < t.length)
+    (halpha : ∀ r, iv.lowerRev ≤ r → r < iv.lowerRev + iv.size →
+      t.getD (sa.getD r 0 + Q.length) 0 ∈ FMDModel.compOrder)
+    (hsym : ∀ b ∈ FMDModel.order, FMDModel.cntOf occ iv b =
+      (List.range iv.size).countP (fun i => t.getD (sa.getD (iv.lowerRev + i) 0 + Q.length) 0 == dnaCompl b)) :
+    BSModel.IvOf t sa (Q ++ [dnaCompl a]) (FMDModel.backwardExt less occ iv a).lowerRev
+      ((FMDModel.backwardExt less occ iv a).lowerRev + (FMDModel.backwardExt less occ iv a).size) :=
+  FMDModel.backwardExt_reverse t sa less occ a Q iv ha hchk hQ hiv hin halpha hsym
+
+/-- the same on an FMD text `fmdText seqs` (sequences over `ACGTNacgtn`): the two side conditions are discharged
+(the text ends with `$`, every occurrence of a DNA string is followed by a text symbol, all text symbols are in
+`$ACGTNacgtn`); **only strand symmetry `hsym` remains a hypothesis**. -/
+theorem backward_ext_reverse_fmd_partial (seqs : List (List Nat)) (sa : List Nat) (less : Nat → Nat)
+    (occ : Nat → Nat → Nat) (a : Nat) (Q : List Nat) (iv : FMDModel.Bi) (ha : a ∈ FMDModel.order)
+    (hne : seqs ≠ []) (hseqs : ∀ s ∈ seqs, ∀ c ∈ s, FMDModel.isDna c = true)
+    (hchk : LF.sortedAllB (fmdText seqs) sa = true)
+    (hQ : ∀ q ∈ Q, FMDModel.isDna q = true)
+    (hiv : BSModel.IvOf (fmdText seqs) sa Q iv.lowerRev (iv.lowerRev + iv.size))
+    (hsym : ∀ b ∈ FMDModel.order, FMDModel.cntOf occ iv b =
+      (List.range iv.size).countP
+        (fun i => (fmdText seqs).getD (sa.getD (iv.lowerRev + i) 0 + Q.length) 0 == dnaCompl b)) :
+    BSModel.IvOf (fmdText seqs) sa (Q ++ [dnaCompl a]) (FMDModel.backwardExt less occ iv a).lowerRev
+      ((FMDModel.backwardExt less occ iv a).lowerRev + (FMDModel.backwardExt less occ iv a).size) :=
+  FMDModel.backwardExt_reverse_fmd seqs sa less occ a Q iv ha hne hseqs hchk hQ hiv hsym
+
+/-- `revcomp (a :: P) = revcomp P ++ [complement a]` — the string whose rows the reverse interval has to hold -/
+theorem revcomp_cons (a : Nat) (P : List Nat) : revcomp (a :: P) = revcomp P ++ [dnaCompl a] := by
+  simp [revcomp]
+
+/-- **strand symmetry** of an FMD text: for `W` of length ≥ 2 with no sentinel after its first symbol, the number of
+occurrences of `W` in `$·T` (T with the cyclic predecessor of position 0, as the BWT sees it) equals the number of
+occurrences of `revcomp W` in `T = fmdText seqs`, for every list of sequences -/
+theorem strand_symmetry (seqs : List (List Nat)) (W : List Nat) (hW2 : 2 ≤ W.length)
+    (hWns : ∀ k, 1 ≤ k → k < W.length → W[k]? ≠ some 36) :
+    (occurrences W (36 :: fmdText seqs)).length = (occurrences (revcomp W) (fmdText seqs)).length :=
+  FMDSym.strand_symmetry seqs W hW2 hWns
+
+/-- reversal alone never changes the number of occurrences (any strings) -/
+theorem occurrences_revcomp_length (W X : List Nat) :
+    (occurrences W X).length = (occurrences (revcomp W) (revcomp X)).length :=
+  FMDSym.occurrences_revcomp_length W X
+
+/-- **`backward_ext` is correct (full statement).**  Index over `fmdText seqs` (non-empty list of sequences over
+`ACGTNacgtn`), suffix array passing `LF.sortedAllB`, `iv` the non-empty bi-interval of the non-empty DNA string `P`
+(forward rows = rows of `P`, reverse rows = rows of `revcomp P`): then the mirror model of `backward_ext(iv, a)`,
+run on `less`/`occ` of the BWT, is the bi-interval of `a·P`, for every `a` of `ACGTNacgtn`. -/
+theorem backward_ext_correct (seqs : List (List Nat)) (sa P : List Nat) (iv : FMDModel.Bi) (a : Nat)
+    (hne : seqs ≠ []) (hseqs : ∀ s ∈ seqs, ∀ c ∈ s, FMDModel.isDna c = true)
+    (hchk : LF.sortedAllB (fmdText seqs) sa = true)
+    (hP : P ≠ []) (hPd : ∀ q ∈ P, FMDModel.isDna q = true) (ha : FMDModel.isDna a = true)
+    (hbi : FMDSym.BiOf (fmdText seqs) sa P iv) (hpos : 0 < iv.size) :
+    FMDSym.BiOf (fmdText seqs) sa (a :: P)
+      (FMDModel.backwardExt (LF.lessRef (LF.bwtOf (fmdText seqs) sa)) (LF.occRef (LF.bwtOf (fmdText seqs) sa)) iv a) :=
+  FMDSym.backwardExt_correct seqs sa P iv a hne hseqs hchk hP hPd ha hbi hpos
+
+/-- **`forward_ext` is correct (full statement)**: … is the bi-interval of `P·a` -/
+theorem forward_ext_correct (seqs : List (List Nat)) (sa P : List Nat) (iv : FMDModel.Bi) (a : Nat)
+    (hne : seqs ≠ []) (hseqs : ∀ s ∈ seqs, ∀ c ∈ s, FMDModel.isDna c = true)
+    (hchk : LF.sortedAllB (fmdText seqs) sa = true)
+    (hP : P ≠ []) (hPd : ∀ q ∈ P, FMDModel.isDna q = true) (ha : FMDModel.isDna a = true)
+    (hbi : FMDSym.BiOf (fmdText seqs) sa P iv) (hpos : 0 < iv.size) :
+    FMDSym.BiOf (fmdText seqs) sa (P ++ [a])
+      (FMDModel.forwardExt (LF.lessRef (LF.bwtOf (fmdText seqs) sa)) (LF.occRef (LF.bwtOf (fmdText seqs) sa)) iv a) :=
+  FMDSym.forwardExt_correct seqs sa P iv a hne hseqs hchk hP hPd ha hbi hpos
+
+/-- **`init_interval_with(a)` is the bi-interval of the one-symbol string `a`** (uses that a DNA symbol and its
+complement are equally frequent in an FMD text: `FMDSym.count_symmetry`) -/
+theorem init_interval_with_correct (seqs : List (List Nat)) (sa : List Nat) (a : Nat)
+    (hne : seqs ≠ []) (hchk : LF.sortedAllB (fmdText seqs) sa = true) (ha : FMDModel.isDna a = true) :
+    FMDSym.BiOf (fmdText seqs) sa [a] (FMDModel.initIntervalWith (LF.lessRef (LF.bwtOf (fmdText seqs) sa)) a) :=
+  FMDSym.initIntervalWith_correct seqs sa a hne hchk ha
+
+/-- **chains** (what `smems` and the harness do): starting from `init_interval_with(w[j])`, every forward step
+turns the bi-interval of `w[lo..hi)` into that of `w[lo..hi+1)` and every backward step into that of `w[lo-1..hi)`,
+as long as the current bi-interval is non-empty — so every bi-interval a chain visits is the bi-interval of the
+substring built so far -/
+theorem chain_correct (seqs : List (List Nat)) (sa w : List Nat)
+    (hne : seqs ≠ []) (hseqs : ∀ s ∈ seqs, ∀ c ∈ s, FMDModel.isDna c = true)
+    (hchk : LF.sortedAllB (fmdText seqs) sa = true) (hw : ∀ c ∈ w, FMDModel.isDna c = true) :
+    (∀ j, j < w.length →
+      FMDSym.BiOf (fmdText seqs) sa (sub w j (j + 1 - j))
+        (FMDModel.initIntervalWith (LF.lessRef (LF.bwtOf (fmdText seqs) sa)) (w.getD j 0))) ∧
+    (∀ iv lo hi, lo < hi → hi < w.length → FMDSym.BiOf (fmdText seqs) sa (sub w lo (hi - lo)) iv → 0 < iv.size →
+      FMDSym.BiOf (fmdText seqs) sa (sub w lo (hi + 1 - lo))
+        (FMDModel.forwardExt (LF.lessRef (LF.bwtOf (fmdText seqs) sa)) (LF.occRef (LF.bwtOf (fmdText seqs) sa)) iv
+          (w.getD hi 0))) ∧
+    (∀ iv lo hi, 1 ≤ lo → lo < hi → hi ≤ w.length → FMDSym.BiOf (fmdText seqs) sa (sub w lo (hi - lo)) iv →
+      0 < iv.size →
+      FMDSym.BiOf (fmdText seqs) sa (sub w (lo - 1) (hi - (lo - 1)))
+        (FMDModel.backwardExt (LF.lessRef (LF.bwtOf (fmdText seqs) sa)) (LF.occRef (LF.bwtOf (fmdText seqs) sa)) iv
+          (w.getD (lo - 1) 0))) :=
+  ⟨fun j hj => FMDSym.chain_start seqs sa w j hne hchk hw hj,
+   fun iv lo hi h1 h2 h3 h4 => FMDSym.chain_step_forward seqs sa w iv lo hi hne hseqs hchk hw h1 h2 h3 h4,
+   fun iv lo hi h0 h1 h2 h3 h4 => FMDSym.chain_step_backward seqs sa w iv lo hi hne hseqs hchk hw h0 h1 h2 h3 h4⟩
+
+/-- row-level correctness implies the property-level statement the oracle checks (`BiIntervalOf`, decided by
+`checkBi`): size = number of occurrences on both strands, both intervals map to the right occurrence sets -/
+theorem biOf_is_biIntervalOf (T sa P : List Nat) (iv : FMDModel.Bi) (hperm : sa.Perm (List.range T.length))
+    (hP : P ≠ []) (h : FMDSym.BiOf T sa P iv) :
+    BiIntervalOf T sa P ⟨iv.lower, iv.lower + iv.size, iv.lowerRev, iv.lowerRev + iv.size⟩ :=
+  FMDSym.biIntervalOf_of_biOf T sa P iv hperm hP h
+
+section model_examples
+-- T = ATTC$GAAT$, the doc test: backward_ext / forward_ext of the empty interval by `T` = init_interval_with(T)
+private def bw0 : List Nat := LF.bwtOf T0 sa0
+example : FMDModel.backwardExt (LF.lessRef bw0) (LF.occRef bw0) (FMDModel.initInterval 10) 84
+    = { FMDModel.initIntervalWith (LF.lessRef bw0) 84 with matchSize := 1 } := by decide
+example : FMDModel.forwardExt (LF.lessRef bw0) (LF.occRef bw0) (FMDModel.initInterval 10) 84
+    = FMDModel.initIntervalWith (LF.lessRef bw0) 84 := by decide
+-- A then T forwards: the bi-interval of "AT" accepted by the oracle above (rows 3..5 on both strands)
+example : FMDModel.fwd (FMDModel.forwardExt (LF.lessRef bw0) (LF.occRef bw0) (FMDModel.initIntervalWith (LF.lessRef bw0) 65) 84)
+    = (3, 5) := by decide
+-- non-vacuity of `backward_ext_correct`: the doc-test index passes `sortedAllB`, and the model's bi-interval of
+-- "T" extended backwards by "A" is the bi-interval of "AT" accepted by `checkBi` above
+example : LF.sortedAllB T0 sa0 = true := by decide
+example : FMDModel.backwardExt (LF.lessRef bw0) (LF.occRef bw0) (FMDModel.initIntervalWith (LF.lessRef bw0) 84) 65
+    = { lower := 3, lowerRev := 3, size := 2, matchSize := 2 } := by decide
+end model_examples
 
 end RbV.Thm.C06
